@@ -219,6 +219,10 @@ def run_cases(ctx, n, tag):
         if i % 7 == 3:
             groups = beyond_dtype(rng, groups)
             ctx.count("group_labels_beyond_image_dtype")
+        elif i % 7 == 5 and len(groups) >= 2:
+            groups = [dict(g) for g in groups]
+            groups[0]["mutate_after"] = True
+            ctx.count("caller_mutates_its_label_lists_after_definition")
         one_case(ctx, pred, ref, cfg, groups, f"{tag}{i}")
 
 
@@ -249,6 +253,15 @@ def corpus(ctx):
         for it in ("SEMANTIC", "UNMATCHED", "MATCHED"):
             ctx.count("group_labels_beyond_image_dtype")
             one_case(ctx, pred, ref, E.mk_cfg(it, ["IOU", "DSC"], matcher=E.naive("IOU", (1, 2)) if it != "MATCHED" else None), gs, "corpus.beyond-dtype")
+    # the caller's label lists change after the groups were defined
+    ref = np.zeros((6, 12), np.uint8)
+    ref[1:4, 1:4], ref[1:4, 5:8], ref[1:4, 9:12] = 1, 2, 3
+    pred = np.roll(ref, 1, axis=0)
+    gs = [{"name": "vertebra", "labels": [1, 2], "merge": False, "single": False, "mutate_after": True},
+          {"name": "disc", "labels": [3], "merge": False, "single": False}]
+    for it in ("SEMANTIC", "UNMATCHED", "MATCHED"):
+        ctx.count("caller_mutates_its_label_lists_after_definition")
+        one_case(ctx, pred, ref, E.mk_cfg(it, ["IOU", "DSC"], matcher=E.naive("IOU", (1, 2)) if it != "MATCHED" else None), gs, "corpus.lists-mutated-after-definition")
     # no background voxel and the smallest label belongs to no group
     a = np.array([[1, 2, 3, 4], [1, 2, 3, 4]], np.uint8)
     gs = [{"name": "a", "labels": [2], "merge": False, "single": False}, {"name": "b", "labels": [3, 4], "merge": False, "single": False}]
